@@ -100,6 +100,10 @@ func (c *FnCtx) exec(st *State, s ast.Stmt) {
 			c.execFor(st, y, x.Label.Name)
 		case *ast.RangeStmt:
 			c.execRange(st, y, x.Label.Name)
+		case *ast.SwitchStmt:
+			// `L: switch … { … break L … }`
+			c.switchLabel = x.Label.Name
+			c.execSwitch(st, y)
 		default:
 			c.exec(st, x.Stmt)
 		}
@@ -395,14 +399,27 @@ func (c *FnCtx) execSwitch(st *State, x *ast.SwitchStmt) {
 		v := c.eval(env, x.Tag)
 		tag = &v
 	}
-	lf := &loopFrame{label: "switch"}
+	lf := &loopFrame{label: "switch", alias: c.switchLabel}
+	c.switchLabel = ""
 	c.loops = append(c.loops, lf)
 	var outs []*State
 	rest := st.clone()
 	var deflt *ast.CaseClause
-	for _, cc := range x.Body.List {
+	var carry *State // state falling through from the previous clause
+	fallsThrough := func(body []ast.Stmt) ([]ast.Stmt, bool) {
+		if n := len(body); n > 0 {
+			if b, ok := body[n-1].(*ast.BranchStmt); ok && b.Tok == token.FALLTHROUGH {
+				return body[:n-1], true
+			}
+		}
+		return body, false
+	}
+	for i, cc := range x.Body.List {
 		cl := cc.(*ast.CaseClause)
 		if cl.List == nil {
+			if _, ft := fallsThrough(cl.Body); ft || (carry != nil && i != len(x.Body.List)-1) {
+				c.unsup(x, "fallthrough out of a default clause, or into one that is not the last clause")
+			}
 			deflt = cl
 			continue
 		}
@@ -416,9 +433,26 @@ func (c *FnCtx) execSwitch(st *State, x *ast.SwitchStmt) {
 			}
 		}
 		a, b := c.split(rest, or(conds...))
-		c.execCaseBody(a, cl.Body, x)
-		outs = append(outs, a)
+		if carry != nil {
+			// the previous clause fell through: its end state enters this body as well
+			a.become(c.join(a, carry))
+			carry = nil
+		}
+		body, ft := fallsThrough(cl.Body)
+		c.execCaseBody(a, body, x)
+		if ft {
+			carry = a
+		} else {
+			outs = append(outs, a)
+		}
 		rest = b
+	}
+	if carry != nil {
+		// only reachable when the last clause is `default` and the clause before it fell through
+		if deflt == nil || x.Body.List[len(x.Body.List)-1] != ast.Stmt(deflt) {
+			c.unsup(x, "fallthrough in the last clause")
+		}
+		rest.become(c.join(rest, carry))
 	}
 	if deflt != nil {
 		c.execCaseBody(rest, deflt.Body, x)
@@ -530,8 +564,9 @@ func (c *FnCtx) execBranch(st *State, x *ast.BranchStmt) {
 		var target *loopFrame
 		if x.Label != nil {
 			for i := len(c.loops) - 1; i >= 0; i-- {
-				if c.loops[i].label == x.Label.Name {
+				if c.loops[i].label == x.Label.Name || (c.loops[i].alias != "" && c.loops[i].alias == x.Label.Name) {
 					target = c.loops[i]
+					break
 				}
 			}
 		} else if len(c.loops) > 0 {
@@ -640,7 +675,10 @@ func (c *FnCtx) loopSpec() (*LoopSpec, int) {
 	if c.C == nil {
 		return nil, c.loopN
 	}
-	return c.C.Loops[c.loopN], c.loopN
+	if ls := c.C.Loops[c.loopN]; ls != nil {
+		return ls, c.loopN
+	}
+	return c.C.Loops[0], c.loopN // `loop all` default, if any
 }
 
 func (c *FnCtx) execFor(st *State, x *ast.ForStmt, label string) {
